@@ -54,7 +54,8 @@ class Deps:
             if d and d.split(".")[0] not in st:
                 out.add("g:" + d)
             if d and ("@" + d) in st:
-                out |= st["@" + d]
+                # a field stored earlier in this function: its dependencies are those of the stored value
+                return frozenset(st["@" + d] | {d})
             return frozenset(out)
         if isinstance(expr, ast.Subscript):
             return self.roots(expr.value, st) | self.roots(expr.slice, st)
@@ -122,8 +123,9 @@ class Deps:
                 st[base] = st.get(base, EMPTY) | val | self.roots(target.slice, st)
         elif isinstance(target, ast.Attribute):
             base = _base_name(target.value)
-            if base is not None and base in st:
+            if base is not None and base in st and base != "self":
                 # weak update of the object, plus a pseudo-variable for the attribute path
+                # (not for `self`: its fields are tracked individually through the pseudo-variables)
                 st[base] = st[base] | val
             d = dotted_name(target)
             if d:
